@@ -45,8 +45,8 @@ theorem mulC_rate {t : TP Rat} {u pu : String} {lu lpu s p : Rat} (h : RateReady
 
 /-- the whole product chain of the hazard functions for a TimePar rate -/
 theorem timeparProb_rate {t : TP Rat} {u pu : String} {lu lpu s p : Rat} (h : RateReady t u pu lu lpu s p)
-    (expr : String) (unit : UnitT) (dt : Option Rat) {fx : Rat} (hfx : factorOf expr unit dt = .ok fx) (ru rel : Rat) :
-    timeparProb expr unit dt t ru rel =
+    (expr : String) (unit : UnitT) (dt : Option Rat) (su : UnitT) (sd : Option Rat) {fx : Rat} (hfx : factorOf expr unit dt su sd = .ok fx) (ru rel : Rat) :
+    timeparProb expr unit dt su sd t ru rel =
       .ok (((((t.v.map (· * ru)).map (· * rel)).map (· * fx)).map (· / ((s / p) * (lu / lpu)))).map clip01) := by
   obtain ⟨t1, e1, r1, v1, _⟩ := mulC_rate h ru
   obtain ⟨t2, e2, r2, v2, _⟩ := mulC_rate r1 rel
@@ -59,9 +59,10 @@ theorem timeparProb_rate {t : TP Rat} {u pu : String} {lu lpu s p : Rat} (h : Ra
   rw [w3, v2, v1]
 
 theorem timeparProb_rate_scalar {t : TP Rat} {u pu : String} {lu lpu s p r : Rat} (h : RateReady t u pu lu lpu s p)
-    (hv : t.v = .scalar r) (expr : String) (unit : UnitT) (dt : Option Rat) {fx : Rat} (hfx : factorOf expr unit dt = .ok fx) (ru rel : Rat) :
-    timeparProb expr unit dt t ru rel = .ok (.scalar (clip01 (r * ru * rel * fx / ((s / p) * (lu / lpu))))) := by
-  rw [timeparProb_rate h expr unit dt hfx, hv]
+    (hv : t.v = .scalar r) (expr : String) (unit : UnitT) (dt : Option Rat) (su : UnitT) (sd : Option Rat) {fx : Rat}
+    (hfx : factorOf expr unit dt su sd = .ok fx) (ru rel : Rat) :
+    timeparProb expr unit dt su sd t ru rel = .ok (.scalar (clip01 (r * ru * rel * fx / ((s / p) * (lu / lpu))))) := by
+  rw [timeparProb_rate h expr unit dt su sd hfx, hv]
   rfl
 
 theorem clip01_of_mem {x : Rat} (h0 : 0 ≤ x) (h1 : x ≤ 1) : clip01 x = x := by
@@ -107,5 +108,36 @@ theorem ageBin_take (age : Rat) : ∀ (bins : List Rat), bins.Pairwise (· < ·)
         rcases hx with rfl | hx
         · exact not_le.mp hle
         · exact not_le.mp (hall x hx)
+
+/-- the first entry at minimal distance: it is one of the years and no year is closer -/
+theorem nearestValAux_spec (y : Rat) : ∀ (xs : List Rat) (b : Rat),
+    (nearestValAux y xs b = b ∨ nearestValAux y xs b ∈ xs) ∧ absDiff (nearestValAux y xs b) y ≤ absDiff b y ∧
+    ∀ x ∈ xs, absDiff (nearestValAux y xs b) y ≤ absDiff x y := by
+  intro xs
+  induction xs with
+  | nil => intro b; simp [nearestValAux]
+  | cons x xs ih =>
+    intro b
+    by_cases h : absDiff x y < absDiff b y
+    · obtain ⟨h1, h2, h3⟩ := ih x
+      simp only [nearestValAux, h, if_true]
+      refine ⟨?_, le_trans h2 (le_of_lt h), ?_⟩
+      · rcases h1 with e | m
+        · right; rw [e]; exact List.mem_cons_self ..
+        · right; exact List.mem_cons_of_mem _ m
+      · intro z hz
+        rcases List.mem_cons.mp hz with rfl | hz
+        · exact h2
+        · exact h3 z hz
+    · obtain ⟨h1, h2, h3⟩ := ih b
+      simp only [nearestValAux, h, if_false]
+      refine ⟨?_, h2, ?_⟩
+      · rcases h1 with e | m
+        · left; exact e
+        · right; exact List.mem_cons_of_mem _ m
+      · intro z hz
+        rcases List.mem_cons.mp hz with rfl | hz
+        · exact le_trans h2 (not_lt.mp h)
+        · exact h3 z hz
 
 end StarsimModel.Hazard
